@@ -21,7 +21,7 @@ import (
 )
 
 func TestMain(m *testing.M) {
-	vstat.Rule("Request bytes are generated and parsed with http.ReadRequest (exactly what the server does), RemoteAddr/TLS/Host are set per case, req.URL is pointed at the backend as callers do, forward.New(passHost).ServeHTTP runs in-process, and the backend is a raw TCP listener recording the request head byte for byte. Targets: origin-form from RFC 3986 pchar (unreserved, sub-delims, ':@', %HH upper/lower hex incl. %2F %20 %25 multi-byte and invalid-UTF-8 escapes), duplicate and leading double slashes, dot segments, ';', '+', empty/bare '?' queries, '??'; plus absolute-form. Headers: 0-8 end-to-end headers, hop-by-hop ones, one or two Connection lines naming arbitrary headers incl. forwarding headers, pre-supplied X-Forwarded-*/X-Real-Ip. Peers: IPv4, [v6], [v6%zone]; TLS or plain; Host with/without port; both pass-through settings. Oracle: backend request line == METHOD <client target> HTTP/1.1 byte for byte; Host = backend host or client's with pass-through; no hop-by-hop or Connection-named header arrives, every other client header arrives unchanged; X-Forwarded-Proto/-Host/-Port/-Server and X-Real-Ip equal the upstream-supplied value or describe the connection; last X-Forwarded-For element is the peer; response direction likewise. Non-trivial: target with an escape Go would normalise, '//' or dot segments, or Connection naming >= 1 other header, or an IPv6 peer.")
+	vstat.Rule("Request bytes are generated and parsed with http.ReadRequest (exactly what the server does), RemoteAddr/TLS/Host are set per case, req.URL is pointed at the backend as callers do, forward.New(passHost).ServeHTTP runs in-process, and the backend is a raw TCP listener recording the request head byte for byte. Targets: origin-form from RFC 3986 pchar (unreserved, sub-delims, ':@', %HH upper/lower hex incl. %2F %20 %25 multi-byte and invalid-UTF-8 escapes), duplicate and leading double slashes, dot segments, ';', '+', empty/bare '?' queries, '??'; plus absolute-form. Headers: 0-8 end-to-end headers, hop-by-hop ones, one or two Connection lines naming arbitrary headers incl. forwarding headers, pre-supplied X-Forwarded-*/X-Real-Ip. Peers: IPv4, [v6], [v6%zone]; TLS or plain; Host with/without port; both pass-through settings. Oracle: backend request line == METHOD <client target> HTTP/1.1 byte for byte; Host = backend host or client's with pass-through; no hop-by-hop or Connection-named header arrives, every other client header arrives unchanged; X-Forwarded-Proto/-Host/-Port/-Server and X-Real-Ip equal the upstream-supplied value or describe the connection; last X-Forwarded-For element is the peer; response direction likewise. Non-trivial: target with an escape Go would normalise, '//' or dot segments, or Connection naming >= 1 other header, or an IPv6 peer. A forwarder with the opposite pass-host setting may be created after the one under test; Hosts include bracketed IPv6 literals without port.")
 	vstat.Main(m.Run)
 }
 
